@@ -389,11 +389,47 @@ def xrunOp (j : Json) : Except String Json := do
     ("spot_ok", Json.bool spotOk), ("spots", natToJson spots.length),
     ("left", side C.K x R m0 stL ccJ.1 fillJ.1), ("right", side C.K' xs R' m0' stR ccJ.2 fillJ.2)]
 
+/-! ### two scales -/
+
+/-- `{"coarse": <C02 input>, "fine": <C02 input, any dmin/dmax>, "invalid", "invalid_mask", "split_wta", "tail",
+     "marge", "f", "user_min", "user_max"}` -/
+def twoScaleOp (j : Json) : Except String Json := do
+  let xc ← field j "coarse" >>= Driver.C02.inputOfJson
+  let xf ← field j "fine" >>= Driver.C02.inputOfJson
+  if xc.meas == .zncc then throw "zncc: the composed run needs exact costs"
+  let invalid ← field j "invalid" >>= valOfJson
+  let invalidMask ← field j "invalid_mask" >>= natOfJson
+  let sW ← field j "split_wta" >>= Driver.C03.splitOfJson
+  let marge ← field j "marge" >>= natOfJson
+  let f ← field j "f" >>= natOfJson
+  let umin ← field j "user_min" >>= ratOfJson
+  let umax ← field j "user_max" >>= ratOfJson
+  let tailJ ← listOfJson pure (fieldD j "tail" (Json.arr #[]))
+  -- the tail steps do not depend on the input here (median filters only)
+  let tl ← tailJ.mapM (tailStepOfJson xc)
+  let (_, rp) ← refineOfJson Json.null xc.sp 0 0
+  let mkK (x : MC.Input) : RunCfg :=
+    { ev := numOnly, isMax := false, disps := dispsOf x, invalid, refine := rp, invalidMask, fs := 0,
+      doRefine := false, doMedian := false, sW, sM := sW }
+  match twoScaleRun mkK (fun _ => tl) marge f umin umax xc xf with
+  | none => return Json.str "raises"
+  | some (mc, g, xf', mf) =>
+    let side (x : MC.Input) (m : Option Maps) : Json :=
+      mkObj [("gmin", intToJson (gminOf x)), ("gmax", intToJson (gmaxOf x)),
+             ("flags", natGrid x.L.rows x.L.cols (C04C02.composedMask x)),
+             ("mc", gridToJson (listToJson valToJson) (Blocks.tabulate x.L.rows x.L.cols (costRow (mkK x) x))),
+             ("wta", valGrid x.L.rows x.L.cols (wtaMapR (mkK x) x (costRow (mkK x) x))),
+             ("final", mapsToJson x.L.rows x.L.cols m)]
+    return mkObj [("coarse", side xc (some mc)),
+                  ("grid_min", gridToJson valToJson g.1), ("grid_max", gridToJson valToJson g.2),
+                  ("fine", side xf' mf)]
+
 def handle (op : String) (j : Json) : Except String Json :=
   match op with
   | "C13.run" => runOp j
   | "C13.hyps" => hypsOp j
   | "C13.xrun" => xrunOp j
+  | "C13.twoscale" => twoScaleOp j
   | _ => throw s!"unknown op {op}"
 
 end Pandora.Driver.C13
